@@ -662,7 +662,9 @@ class AggregatedWorkflowRuns(base.AbstractGitHostObject):
         }
         best_runs = {}
         for run in self._workflow_runs:
-            workflow_id = run['workflow_id']
+            # a run only competes with the runs of the same workflow on the
+            # same branch: a success on one branch says nothing of another
+            workflow_id = (run['head_branch'], run['workflow_id'])
             conclusion = run['conclusion']
             if (workflow_id not in best_runs or
                     conclusion_ranking[conclusion] >
@@ -699,8 +701,11 @@ class AggregatedWorkflowRuns(base.AbstractGitHostObject):
     @property
     def state(self):
         self.remove_unwanted_workflows()
+        # groupby() only groups consecutive runs: sort by branch first so
+        # that all the runs of a branch are judged together
         res = [list(v) for i, v in groupby(
-            self._workflow_runs,
+            sorted(self._workflow_runs,
+                   key=lambda elem: str(elem['head_branch'])),
             lambda elem: elem['head_branch']
         )]
 
